@@ -171,7 +171,9 @@ class Check(PropertyCheck):
     design_ref = "§5 C29"
     level_text = ("Lean theorems over ALL input schedules of the TCPLayer/UDPLayer state machine (start with optional "
                   "connect, relay, half-close rule, done, Layer pause/replay queue, injection, addon edits): "
-                  "relay_exact_per_direction, half_close_propagated_while_other_direction_flows (+ full_close_only_when_ending), "
+                  "relay_exact_per_direction (+ addon_edit_is_what_is_sent, inject_is_spoofed_data), half_close_propagated_while_other_direction_flows "
+                  "(+ half_close_emitted_once_quiescent for closes buffered behind hooks, full_close_only_when_ending, "
+                  "tcp_ends_only_when_both_directions_closed), "
                   "exactly_one_end_or_error (at most one always; exactly one once quiescent with both sides closed / connect "
                   "failed), nothing_relayed_after_end; proved by invariants over the run, no bound on schedule length. The model is "
                   "tied to the real layers by step-by-step comparison (commands, connection states, handler, pause flag, queue "
@@ -185,19 +187,20 @@ class Check(PropertyCheck):
             "proto x flow/ignore x server pre-connected; exhaustive short schedules first, then random ones of length <= 16 "
             "(about 10% contain events server.py cannot produce: second close, data after close). distinct = distinct "
             "(config, effective input sequence); non-trivial = at least one SendData or close command was produced.")
-    budget = {"quick": 9000, "thorough": 600000}
+    budget = {"quick": 30000, "thorough": 600000}
     time_budget = {"quick": 30, "thorough": 540}
     fingerprints = ["mitmproxy.proxy.layers.tcp:TCPLayer", "mitmproxy.proxy.layers.udp:UDPLayer",
                     "mitmproxy.proxy.layer:Layer.handle_event", "mitmproxy.proxy.layer:Layer._Layer__continue",
                     "mitmproxy.proxy.layer:Layer._Layer__process",
                     "mitmproxy.proxy.server:ConnectionHandler.close_connection"]
     trusted_base = ["harness/common/world.py as the stand-in for proxy/server.py (delivery order, state bookkeeping)"]
-    parallel = True
+    parallel = False              # set per tier in setup(): process pool only for the thorough tier
 
     ALPHA = [("data", "c", "61"), ("data", "s", "62"), ("close", "c", 0), ("close", "s", 0), ("hook", None),
              ("hook", "7a7a"), ("connect", 0), ("connect", 1), ("inject", 1, "69"), ("close", "c", 1)]
 
     def setup(self, tier):
+        self.parallel = tier == "thorough"
         # build the (expensive) Options object once, before the worker pool forks
         global _OPTS
         if _OPTS is None: _OPTS = make_context("tcp").options
